@@ -243,8 +243,9 @@ Lemma stream_window_no_panic checked hdr range file_len :
   Range.sanitize_range hdr = Ok range -> stream_window checked range file_len <> Panic.
 Proof.
   intros Hs. unfold stream_window. destruct range as [[s e]|].
-  - apply sanitize_range_ordered in Hs as [Hle _]. unfold sub_u64.
-    destruct (N.leb_spec s e) as [_|]; [|lia]. cbn [obind]. intros H. destruct (_ <? s); discriminate H.
+  - apply sanitize_range_ordered in Hs as [Hle _].
+    destruct (N.leb_spec file_len s) as [|Hin]; [discriminate|]. unfold sub_u64.
+    destruct (N.leb_spec s (N.min e file_len)) as [_|]; [|lia]. cbn [obind]. intros H. destruct (_ <? s); discriminate H.
   - unfold sub_u64. destruct (N.leb_spec 0 file_len) as [_|]; [|lia]. cbn [obind]. intros H.
     destruct (_ <? 0); discriminate H.
 Qed.
